@@ -161,10 +161,15 @@ def run_check(pid, level, module_run, argv):
     except factsmod.AnalysisError as e:
         print("ANALYSIS-ERROR property=%s: %s" % (pid, e))
         return 2
-    except Exception:
-        print("ANALYSIS-ERROR property=%s: internal error in the rule engine" % pid)
+    except Exception as e:
+        # Fail closed: a construct the rule engine cannot read means the rules certify nothing about this tree. It is reported as a
+        # violation of rule "engine" (with the exception as its text), not silently as an error of the checker.
         traceback.print_exc()
-        return 2
+        tb = traceback.extract_tb(sys.exc_info()[2])
+        where = "%s:%s" % (os.path.basename(tb[-1].filename), tb[-1].name) if tb else "?"
+        r = ctx.rule("engine", "every construct the rules read is one they understand (fail closed)")
+        r.fail("unreadable/" + where, "the analysed tree contains a construct the rule engine cannot read (%s: %s in %s): nothing is certified"
+               % (type(e).__name__, str(e)[:160], where))
 
     known = [k for k in load_known() if k.get("property") == pid]
     known_keys = {k["key"]: k for k in known if k.get("status") == "known"}
